@@ -316,6 +316,14 @@ void snoopy_configuration_dtor ()
         CFG->syslog_ident_format_malloced = SNOOPY_FALSE;                 /* Set this to false         - REQUIRED (see above) */
         CFG->syslog_ident_format          = SNOOPY_SYSLOG_IDENT_FORMAT;   /* Set this to default value - REQUIRED (see above) */
     }
+
+    /*
+     * Reset the remaining (non-string) options too. Without thread safety this structure is a
+     * global that outlives the call: error_logging, syslog facility/level and both length limits
+     * set by this call's config file would otherwise still be in force for the next call, even if
+     * the file no longer sets them (or is gone).
+     */
+    snoopy_configuration_setDefaults(CFG);
 }
 
 
